@@ -3,6 +3,7 @@ import sys
 from harness import common
 from symrun import loader
 loader.install()
+from harness.composed import payload  # noqa: E402
 from harness.explore import Explore, make_jobs, make_random_jobs  # noqa: E402
 
 CONFIGS = {
@@ -76,7 +77,7 @@ class EventExplore(Explore):
                 if sim.getters:
                     # results obtained through explicit get_message() calls are a prefix of what the peer sent, in order
                     got = [ent[0][1] for (what, ent, _) in getattr(c, "get_log", []) if what == "get_message" and ent and ent[0][0] == "ok"]
-                    peer_sent = [b"msg-%s-%d" % ("AB"[1 - i].encode(), n) for n in range(sim.api[1 - i]["sent"])] if len(sim.cl) == 2 else []
+                    peer_sent = [payload("AB"[1 - i], n) for n in range(sim.api[1 - i]["sent"])] if len(sim.cl) == 2 else []
                     if got != peer_sent[:len(got)]:
                         out.append(("get_message() results are not the peer's messages in order", "%s: %r vs %r" % (c.name, got, peer_sent)))
         return out
